@@ -297,7 +297,7 @@ class Exec:
         if m:
             x = float(m.group(1).replace('NaN', 'nan'))
             return mk_int(f32_bits(x), 'f32') if m.group(2) == 'f32' else mk_int(f64_bits(x), 'f64')
-        m = re.fullmatch(r'(?:.*::)?(f32|f64)::(\w+)', t)
+        m = re.fullmatch(r'(?:.*::)?(?:<impl )?(f32|f64)>?::(\w+)', t)
         if m and m.group(2) in self.FLOAT_NAMED:
             a, b = self.FLOAT_NAMED[m.group(2)]
             return mk_int(f32_bits(a), 'f32') if m.group(1) == 'f32' else mk_int(f64_bits(b), 'f64')
@@ -327,13 +327,22 @@ class Exec:
         if m:
             return self.named_const(fr, m.group(1).strip(), True)
         if 'promoted[' in t:
-            f = self.prog.by_full.get((fr.fn.crate, t))
+            f = self.prog.by_full.get((fr.fn.crate, t)) or self.prog.by_full.get((fr.fn.crate, 'const ' + t))
             if f is None:
-                # promoted names are relative to the enclosing function
+                # references carry the full path and generic arguments, definitions use the trimmed path: match on the
+                # last segments (enclosing item, promoted[k]) within the same crate
+                want = [strip_generics(x).strip() for x in self.prog.split_path(t) if not (x.startswith('<') and not x.startswith('<impl'))]
+                best = None
                 for (cr, nm), g in self.prog.by_full.items():
-                    if cr == fr.fn.crate and g.promoted and nm.endswith(t.split('::')[-1]) and nm.startswith(fr.fn.name.split('::{closure')[0][:40]):
-                        f = g
-                        break
+                    if cr != fr.fn.crate or not g.promoted or 'promoted[' not in nm:
+                        continue
+                    have = [strip_generics(x).strip() for x in self.prog.split_path(nm[6:] if nm.startswith('const ') else nm) if not (x.startswith('<') and not x.startswith('<impl'))]
+                    k = 0
+                    while k < min(len(want), len(have)) and want[-1 - k] == have[-1 - k]:
+                        k += 1
+                    if k >= 2 and (best is None or k > best[0]):
+                        best = (k, g)
+                f = best[1] if best else None
             if f is None:
                 raise Unsupported('promoted constant not found: ' + t)
             return self.call_fn(f, [])
@@ -355,6 +364,9 @@ class Exec:
         for (cr, nm), f in self.prog.by_full.items():
             if f.promoted and nm.startswith('const ') and nm.split('::')[-1] == ls and cr == fr.fn.crate:
                 return self.call_fn(f, [])
+        last = name.split('::')[-1]
+        if re.fullmatch(r'[\w:]+', name) and last[:1].isupper() and not last.isupper():
+            return Struct([], last)          # unit struct used as a value (RangeFull, PhantomData, ...)
         raise Unsupported('constant ' + name)
 
     @staticmethod
@@ -612,6 +624,10 @@ class Exec:
         m = self.models.aggregate(self, names, vals)
         if m is not None:
             return m
+        if len(names) == 1 and not vals and names[0] not in self.prog.structs:
+            owners = [e for e, vs in self.prog.enums.items() if names[0] in vs]
+            if len(owners) == 1:
+                return Enum(owners[0], names[0], [])       # variant printed without its enum path (e.g. `Interrupted`)
         return Struct(vals, names[-1])
 
     # ------------------------------------------------------------------ execution
@@ -783,6 +799,9 @@ class Exec:
             me = Ptr(Cell(f)) if p0.startswith('&') else f
             return self.call_fn(fn, [me] + list(args))
         if isinstance(f, FnItem):
+            segs = [strip_generics(x).strip() for x in self.prog.split_path(f.name) if not x.startswith('<')]
+            if len(segs) >= 2 and segs[-2] in self.prog.enums and segs[-1] in self.prog.enums[segs[-2]]:
+                return Enum(segs[-2], segs[-1], list(args))       # tuple-variant constructor used as a function
             fake = Frame(parse.Fn('?', '?', [], '?'))
             fake.fn.file = None
             return self.call(fake, f.name, list(args))
